@@ -7,11 +7,11 @@ func init() {
 		ID: "C18", Level: "exploration", Floor: 1000000,
 		Rule: "a case = one history run from a fresh tester built by the real liveness.New(): (a) EVERY history of length 1..6 (quick) / 1..7 (thorough) over " +
 			"{query(a1..a3) x host live/not-live, advance 20 min, ClearExpiredCache} for each configuration of the matrix live-only / non-live-only / both x map and LRU " +
-			"capacity 1..3 x lifetimes 40m/60m (= 2 and 3 steps, so ages land exactly on the lifetime; one length less for unequal capacities), the error accompanying the scripted verdict " +
+			"capacity 1..3 x lifetimes 40m/60m (= 2 and 3 steps, so ages land exactly on the lifetime; one length less for unequal capacities and for 50 configurations with the zero / negative / 1 ns lifetimes 0s, 0, -5m, -1ns, 1ns), the error accompanying the scripted verdict " +
 			"rotating through every error class; (a2) for every configuration and every ordered pair of the 12 scripted probe outcomes (verdict x error class: nil, sentinel, wrapped sentinel, " +
 			"the other verdict's sentinel, text-rebuilt, context.DeadlineExceeded, net.OpError), a1 measured with the first outcome followed by every continuation of length 1..4 / 1..5 over " +
 			"{query(a1), query(a2), advance, clear}; (a3) boundary: 128 / 512 entries per (configuration, age) queried again at every age in {0.5, 0.90 .. 0.999, L-1ns, L, L+1ns, 1.001 .. 1.05, 1.06, 1.08, 1.10, 1.5} x " +
-			"lifetime for lifetimes 2s, 90s, 40m, 2h, 26h, map and LRU, live-only / non-live-only / both; (b) seeded random histories of length 200 over up to 8 addresses with random " +
+			"lifetime for lifetimes 2s, 90s, 40m, 2h, 26h (ages 0..3h against the non-positive lifetimes), map and LRU, live-only / non-live-only / both; (b) seeded random histories of length 200 over up to 8 addresses with random " +
 			"configurations, random outcomes and advances aimed at f x lifetime of a cached verdict; (c) under -race, rounds of 8 concurrent workers (queries, ClearExpiredCache, Len) judged at the barrier. " +
 			"evaluations = histories (a, a2, b) + (configuration, age) scenarios (a3) + rounds (c). " +
 			"distinct_nontrivial: (a, a2) distinct (configuration, [verdicts of the outcome pair,] response shape) tuples, shape = per-step response class {first probe +/-, re-probe of a known address +/-, cache hit +/-, " +
